@@ -266,15 +266,24 @@ def scan_helper(ctx, key, name, want_flag, mutating):
         eqbr = [e for e in evs if e.name == 'BR' and e.data['label'] == 'cmp_eq']
         posbr = [e for e in evs if e.name == 'BR' and e.data['label'] == 'discr:std::iter::Iterator::position']
         anybr = [e for e in evs if e.name == 'BR' and e.data['label'] == 'discr:std::iter::Iterator::any']
-        if posbr or any(e.name == 'CALL' and e.data['callee'] in ('std::iter::Iterator::position', 'std::iter::Iterator::any') for e in evs):
+        findbr = [e for e in evs if e.name == 'BR' and e.data['label'] == 'discr:std::iter::Iterator::find']
+        if not posbr and findbr:
+            posbr = findbr  # `iter().enumerate().find(|(_, s)| s.eq(sig))`: position() spelled with find over enumerate
+        SEARCH = ('std::iter::Iterator::position', 'std::iter::Iterator::any', 'std::iter::Iterator::find')
+        if posbr or any(e.name == 'CALL' and e.data['callee'] in SEARCH for e in evs):
             # alternative idiom: wait_list.iter().position(|s| s.eq(sig)) -> Some(i) => remove(i)
-            pc = [e for e in evs if e.name == 'CALL' and e.data['callee'] in ('std::iter::Iterator::position', 'std::iter::Iterator::any')]
+            pc = [e for e in evs if e.name == 'CALL' and e.data['callee'] in SEARCH]
             ok_src = False
+            is_find = len(pc) == 1 and pc[0].data['callee'].endswith('::find')
             if len(pc) == 1:
                 a = pc[0].data['args']
                 src = a[0]
                 if src[0] in ('ref', 'rawptr') and len(src) > 2 and src[2] is not None:
                     src = src[2]
+                if is_find and src[0] == 'call' and src[2] == 'std::iter::Iterator::enumerate' and src[3]:
+                    src = src[3][0]  # find over enumerate(): the index travels with the entry
+                elif is_find:
+                    src = ('none',)
                 from mir import ci_field_ref
                 ok_src = src[0] == 'call' and src[2] == 'std::collections::VecDeque::iter' and ci_field_ref(src[3][0]) == 'wait_list'
                 clo = a[1] if len(a) > 1 else None
@@ -299,6 +308,8 @@ def scan_helper(ctx, key, name, want_flag, mutating):
             if truth and mutating:
                 rem = [e for e in muts if e.name == 'WL.remove']
                 pay = ('field', ('downcast', pc[0].data['res'], 'Some'), '0')
+                if is_find:
+                    pay = ('field', pay, '0')  # the index half of the (index, entry) pair that was found
                 if len(muts) != 1 or len(rem) != 1 or not rem[0].data['args'] or rem[0].data['args'][0] != pay:
                     ctx.violate(key, p, '%s must remove exactly the found position with the order-preserving remove(i) (mutators: %s)' % (name, [m.name for m in muts]))
             elif muts:
